@@ -18,6 +18,8 @@ import (
 	"fmt"
 	"testing"
 	"time"
+
+	"pgregory.net/rapid"
 )
 
 func vfC03Reason(call *vfFamACall) string {
@@ -52,8 +54,16 @@ func vfC03Run(v *vfT, c vfFamACase) {
 		vfFamASettle(p, accepted[x], 100*time.Microsecond)
 		evBefore := p.events.Load()
 		before := vfFamAObserve(p.pc)
+		renegAnswer := call.Bad != "" && !call.Local && call.Typ == SDPTypeAnswer && before.CR != nil
 		err := call.Invoke()
 		after := vfFamAObserve(p.pc)
+		if renegAnswer {
+			if err == nil {
+				v.Label("renegotiation-answer-munged:accepted:" + call.Bad)
+			} else {
+				v.Label("renegotiation-answer-munged:rejected:" + call.Bad)
+			}
+		}
 		reason := vfC03Reason(call)
 		if err == nil {
 			accepted[x]++
@@ -112,6 +122,40 @@ func TestVerif_C03_Histories(t *testing.T) {
 				o.BadAllowRemote = append(o.BadAllowRemote, bi)
 			}
 		}
-		return vfFamAGen(v.R, o)
+		c := vfFamAGen(v.R, o)
+		if rapid.IntRange(0, 2).Draw(v.R, "renegTemplate") == 0 {
+			// established session, second round, offerer side: the ANSWER of the renegotiation is
+			// munged per section (mid removed / duplicated / unknown / swapped); a first-round answer
+			// with the same edit is accepted by pion, a second-round one may be refused late
+			var allow []int
+			for bi, name := range vfFamABadNames {
+				switch name {
+				case "no-mid-last-section", "no-mid-application-section", "no-mid-first-section", "dup-mid-last-section", "unknown-mid-last-section", "swap-mids", "no-mid":
+					if !v.col.known["C03/setRemote/"+name] {
+						allow = append(allow, bi)
+					}
+				}
+			}
+			if len(allow) > 0 {
+				x := rapid.IntRange(0, 1).Draw(v.R, "renegInitiator")
+				y := 1 - x
+				round := func(bad int) []vfFamAOp {
+					return []vfFamAOp{{K: vfFamAKOffer, X: x}, {K: vfFamAKSetLocal, X: x, T: vfFamATOffer}, {K: vfFamAKSetRemote, X: y, T: vfFamATOffer},
+						{K: vfFamAKAnswer, X: y}, {K: vfFamAKSetLocal, X: y, T: vfFamATAnswer}, {K: vfFamAKSetRemote, X: x, T: vfFamATAnswer, Bad: bad}}
+				}
+				if x == 0 {
+					c.InitA = 3 // audio + data channel: at least two m-sections
+				} else {
+					c.InitB = 3
+				}
+				pre := round(0)
+				if rapid.Bool().Draw(v.R, "renegAdd") {
+					pre = append(pre, vfFamAOp{K: vfFamAKAddTr, X: x, T: rapid.IntRange(0, 1).Draw(v.R, "dir"), Src: rapid.IntRange(0, 1).Draw(v.R, "kind")})
+				}
+				pre = append(pre, round(rapid.SampledFrom(allow).Draw(v.R, "renegBad"))...)
+				c.Ops = append(pre, c.Ops...)
+			}
+		}
+		return c
 	}, vfC03Run)
 }
